@@ -3,6 +3,7 @@ import Mp4ff.Model.AvcSps
 import Mp4ff.Lemmas.C16Nalu
 import Mp4ff.Lemmas.C15
 import Mp4ff.Props.C15b
+import Mp4ff.Expect.Transcribed
 /-!
 # C16 — untrusted elementary-stream bytes never crash or hang the codec helpers
 What a theorem can carry of this property, proved for **every** byte string: the length-prefixed NAL-unit walkers
@@ -63,5 +64,10 @@ theorem sps_total (signedOffsets : Bool) (nalu : Bytes) :
 /-- non-vacuity: a length field of 2^32-1 in a 6-byte "sample" -/
 example : nalusFromSample [0xff, 0xff, 0xff, 0xff, 0x65, 0x00] = none ∧
     naluTypes avc false [0xff, 0xff, 0xff, 0xff, 0x65, 0x00] = [5] := by decide
+
+/-- the Go functions the models of this property transcribe (committed table `spec/transcribed.json`, checked against
+    the current source by the extractor on every run) all still exist -/
+theorem model_sources_exist :
+    (["AvcPps.lean", "AvcSlice.lean", "AvcSps.lean", "Bits.lean", "HevcPps.lean", "HevcSlice.lean", "HevcSps.lean", "Nalu.lean", "Sei.lean"] : List String).all Mp4ff.Expect.presentFor = true := by decide +kernel
 
 end Mp4ff.C16
